@@ -88,6 +88,14 @@ def obligations(tier, rng):
         N = rng.choice([3, 4, 5, 6])
         out.append(ob('C01', 'offline', 'F3/%d/%s/N=%d' % (i, text(f), N), f=f, N=N, kind='combined', ext=False,
                       times='fixed'))
+    # bounds written with explicit / mixed units (the text goes through the parser; the oracle is the sample-level formula)
+    raws = [('raw', 'once[1s:2000ms](x)', ('once_t', X, 1, 2)), ('raw', 'always[0s:2000ms](x)', ('always_t', X, 0, 2)),
+            ('raw', 'eventually[1000ms:3s](x)', ('eventually_t', X, 1, 3)), ('raw', '(x) until[1000000us:3s] (y)', ('until_t', X, Y, 1, 3)),
+            ('raw', '(x) since[0:2000ms] (y)', ('since_t', X, Y, 0, 2)), ('raw', 'historically[1s,2s](x)', ('historically_t', X, 1, 2)),
+            ('raw', '(x) unless[1s,2000ms] (y)', ('unless_t', X, Y, 1, 2))]
+    for f in raws:
+        for N in (2, 5):
+            out.append(ob('C01', 'offline', 'units/%s/N=%d' % (f[1], N), f=f, N=N, kind='offline', ext=True, times='fixed'))
     # regression shapes named in the design
     for f in [('unless_t', X, Y, 1, 2), ('unless_t', X, Y, 0, 3), ('always_t', X, 0, 5), ('eventually_t', X, 2, 5)]:
         for N in (1, 2, 3):
